@@ -35,7 +35,29 @@ let describe_diff (a : C02.c02_obs) (b : C02.c02_obs) skip : string =
   if not skip then begin add "read" (a.p_read <> b.p_read); add "read_into" (a.p_read_into <> b.p_read_into) end;
   String.concat "," (Stdlib.List.rev !parts)
 
+(* hostile bytes over real sockets: the endpoint survives, fails that connection (a client call
+   returns an error promptly, not by its timeout and never a value; a server closes or answers with
+   an error frame) and keeps serving others *)
+let net_step cs os =
+  let f = fields cs and o = fields os in
+  match get_opt o "crash" with
+  | Some c -> ["BAD\tside=impl\tclause=crash over the network:" ^ c]
+  | None ->
+    let target = get f "target" and net = get o "net" and alive = get o "alive" in
+    let is_client = (target = "client" || target = "aclient" || target = "wsclient") in
+    let bad = ref [] in
+    if alive <> "1" then bad := "BAD\tside=impl\tclause=endpoint no longer serves after hostile bytes" :: !bad;
+    if is_client then begin
+      if net = "ok" then bad := "BAD\tside=impl\tclause=client returned a value for a hostile reply" :: !bad
+      else if net = "err:1" then
+        (* an incomplete header leaves the reader waiting for more bytes: the call may end by its own
+           timeout; with a complete 48-byte header it must fail promptly *)
+        (if String.length (get f "bytes") >= 96 then bad := "BAD\tside=impl\tclause=client call hung until its timeout on a malformed reply" :: !bad)
+    end;
+    !bad
+
 let step _ cs os =
+  if get_opt (fields cs) "kind" = Some "net" then net_step cs os else
   let bs = bytes_of_hex (get (fields cs) "bytes") in
   let (impl, skip) = parse_obs bs (fields os) in
   let model = C02.model_C02 bs in
